@@ -285,7 +285,7 @@ func init() {
 	})
 
 	register(&Rule{
-		ID: "reload.reused-at-most-once", Props: []string{"C02", "C14"}, Floor: 6,
+		ID: "reload.reused-at-most-once", Props: []string{"C02", "C14", "C06"}, Floor: 6,
 		Doc: "in the three builders an old object that was matched (equal rule: reused as a whole; statistic-reusable rule: its statistic handed to the generator) is removed from the candidate list (append(old[:i], old[i+1:]...) with i the matched index) before the next rule is processed: no two new controllers share one old controller or one statistic (a shared standalone window would be incremented once per sharing controller for every admitted request)",
 		Run: func(c *Ctx) {
 			for _, bn := range builderFuncs {
@@ -489,6 +489,37 @@ func init() {
 					}
 				}
 				c.Check(ok && !outside && len(bs.result) > 0, fnKey(f)+" / single-loop-appends", f.Pos(), "%d append(s) to the result list, all in the same loop over the rules (several loops: %v, outside any loop: %v)", len(bs.result), !ok, outside)
+			}
+		},
+	})
+}
+
+func init() {
+	register(&Rule{
+		ID: "reload.bound-rule-is-loaded-rule", Props: []string{"C14", "C13"}, Floor: 5,
+		Doc: "the rule a controller / breaker reports through BoundRule() - the one the builders compare the next load against, and the getters copy - is the loaded rule object itself: every store to circuitBreakerBase.rule, flow.TrafficShapingController.rule and hotspot baseTrafficShapingController.r is the constructor's own *Rule parameter, not a copy or a normalised variant (a bound rule that differs from the loaded one never equals an identical re-load, so every effective reload rebuilds the object and drops its state)",
+		Run: func(c *Ctx) {
+			specs := []struct{ typ, field string }{
+				{"core/circuitbreaker.circuitBreakerBase", "rule"},
+				{"core/flow.TrafficShapingController", "rule"},
+				{"core/hotspot.baseTrafficShapingController", "r"},
+			}
+			for _, sp := range specs {
+				t := c.P.Named(sp.typ)
+				if t == nil {
+					c.AnchorLost(sp.typ)
+					continue
+				}
+				n := 0
+				for _, st := range fieldStores(c.P, t, sp.field) {
+					n++
+					p, ok := resolve(st.st.Val).(*ssa.Parameter)
+					okP := ok && p.Parent() == st.fn
+					c.Check(okP, fmt.Sprintf("%s / store %s.%s#%d", fnKey(st.fn), t.Obj().Name(), sp.field, n), st.st.Pos(), "binds %s (want the function's own *Rule parameter)", accessPath(st.st.Val))
+				}
+				if n == 0 {
+					c.Violate(sp.typ+" / bound-rule", token.NoPos, "no constructor stores the bound rule")
+				}
 			}
 		},
 	})
